@@ -349,4 +349,16 @@ Module ReuseExamples.
   Proof.
     intros v Hv. unfold xexec. destruct (reg v REG_GGAS =? 0); cbn; [right; eauto|left; exact Hv].
   Qed.
+  (* a debugger = (configuration, last state): instances that differ in the last state only (one was
+     left suspended by an abandoned debug session) agree in the sense of same_config *)
+  Definition dvm := vm unit unit unit unit (bool * option N) unit unit unit unit N unit unit unit.
+  Definition denv : env unit unit unit (bool * option N) unit unit N unit :=
+    mkEnv (fun t => t) (fun _ => []) (fun _ _ => inl None) (fun _ => []) (fun _ _ => []) (fun _ => []) (fun _ => 0) (fun _ => 0)
+          (fun _ => 0) (fun _ => []) (fun _ => None) (fun _ => None) (fun _ => Some tt) (fun _ => []) (fun _ => Some 0)
+          (fun d => (fst d, None)) tt tt tt (false, None) tt.
+  Example same_config_ignores_last_state (v : dvm) (l : option N) :
+    same_config denv v (mkVm (registers v) (mem v) (frames v) (receipts v) (tx v) (initial_balances v) (input_contracts v)
+                             (input_contracts_index_to_output_index v) (storage v) (fst (debugger v), l) (ctx v) (balances v)
+                             (interpreter_params v) (pctx v) (ecal_state v) (verifier v) (owner_ptr v) (storage_slot_cache v)).
+  Proof. unfold same_config. cbn. tauto. Qed.
 End ReuseExamples.
